@@ -372,8 +372,11 @@ func (runInfo *runInfoStruct) invokeMemberExpr(expr *ast.MemberExpr) {
 	case reflect.Struct:
 		field, found := runInfo.rv.Type().FieldByName(expr.Name)
 		if found {
-			runInfo.rv = runInfo.rv.FieldByIndex(field.Index)
-			return
+			// an unexported field is not a member: its value cannot be handed out
+			if fv := runInfo.rv.FieldByIndex(field.Index); fv.CanInterface() {
+				runInfo.rv = fv
+				return
+			}
 		}
 		if runInfo.rv.CanAddr() {
 			runInfo.rv = runInfo.rv.Addr()
